@@ -1,4 +1,4 @@
-import BobModel.Proofs.C18Forward
+import BobModel.Proofs.C18Traverse
 /-
 Helper lemmas for C18: the result walk (`__findResultNodes`) reports real paths inside `valid`;
 `valid` only holds nodes on real paths from the root to a result.
@@ -143,92 +143,6 @@ theorem findResultNodes_ok (g : Graph) (qa : Bool) (valid0 result0 : List Node) 
     exact hloop kids _ hkids (fun x hx => hv x (hv1 x hx)) (fun x hx => hr x (hr1 x hx))
 
 /-! ### `valid` lies on real paths -/
-
-theorem reach_refl (g : Graph) (a : Node) : Reach g a a := Or.inl rfl
-
-theorem reach_trans {g : Graph} {a b c : Node} (h1 : Reach g a b) (h2 : Reach g b c) : Reach g a c := by
-  rcases h1 with rfl | h1
-  · exact h2
-  · rcases h2 with rfl | h2
-    · exact Or.inr h1
-    · exact Or.inr (transGen_trans h1 h2)
-
-theorem edge_true_of_edge {g : Graph} {qi : Bool} {a b : Node} (h : edge g qi a b) : edge g true a b := by
-  obtain ⟨e, he, hn, _⟩ := h
-  exact ⟨e, he, hn, Or.inl rfl⟩
-
-theorem reach_of_edge {g : Graph} {qi : Bool} {a b : Node} (h : edge g qi a b) : Reach g a b :=
-  Or.inr (.single (edge_true_of_edge h))
-
-theorem reach_of_axisRel {g : Graph} {ax : Axis} {a b : Node} (h : axisRel g ax a b) : Reach g a b := by
-  cases ax <;> simp only [axisRel] at h
-  · exact Or.inl h
-  · exact reach_of_edge h
-  · exact Or.inr h
-  · exact h
-  · exact reach_of_edge h
-  · exact Or.inr (transGen_mono (fun _ _ h => edge_true_of_edge h) h)
-  · rcases h with h | h
-    · exact Or.inl h
-    · exact Or.inr (transGen_mono (fun _ _ h => edge_true_of_edge h) h)
-
-/-- every node `traverse` puts into `intermediate` is reachable from a start node -/
-theorem traverse_reach (g : Graph) (new : List Node) (qi : Bool) (P : Node → Prop)
-    (hP : ∀ a b, P a → edge g qi a b → P b) :
-    ∀ (fuel : Nat) (node : Node) (stack : List Node) (st : List Node × List Node),
-      P node → (∀ y ∈ stack, P y) → (∀ y ∈ st.2, P y) →
-      ∀ y ∈ (traverse g new qi fuel node stack st).2, P y := by
-  intro fuel
-  induction fuel with
-  | zero => intro node stack st _ _ hst; simpa [traverse] using hst
-  | succ fuel ih =>
-    intro node stack st hnode hstack hst
-    obtain ⟨vis, inter⟩ := st
-    simp only [traverse]
-    split
-    · exact hst
-    · split
-      · intro y hy
-        rcases mem_union.mp hy with h | h
-        · exact hst y h
-        · exact hstack y h
-      · have hloop : ∀ (cs : List Node) (s : List Node × List Node),
-            (∀ c ∈ cs, P c) → (∀ y ∈ s.2, P y) →
-            ∀ y ∈ (cs.foldl (fun st c => traverse g new qi fuel c (stack ++ [node]) st) s).2, P y := by
-          intro cs
-          induction cs with
-          | nil => intro s _ hs; simpa using hs
-          | cons c cs ihc =>
-            intro s hcs hs
-            simp only [List.foldl_cons]
-            apply ihc _ (fun c' hc' => hcs c' (List.mem_cons_of_mem _ hc'))
-            apply ih c (stack ++ [node]) s (hcs c (List.mem_cons.mpr (Or.inl rfl))) _ hs
-            intro y hy
-            rcases List.mem_append.mp hy with h | h
-            · exact hstack y h
-            · simp only [List.mem_singleton] at h; subst h; exact hnode
-        exact hloop _ _ (fun c hc => hP node c hnode (mem_succs.mp hc)) hst
-
-theorem findIntermediateNodes_reach (g : Graph) (old new : List Node) (qi : Bool) :
-    ∀ y ∈ findIntermediateNodes g old new qi, ∃ o ∈ old, Reach g o y := by
-  intro y hy
-  unfold findIntermediateNodes at hy
-  split at hy
-  · cases hy
-  · have hloop : ∀ (os : List Node) (s : List Node × List Node),
-        (∀ o ∈ os, o ∈ old) → (∀ y ∈ s.2, ∃ o ∈ old, Reach g o y) →
-        ∀ y ∈ (os.foldl (fun st n => traverse g new qi (g.size + 1) n [] st) s).2, ∃ o ∈ old, Reach g o y := by
-      intro os
-      induction os with
-      | nil => intro s _ hs; simpa using hs
-      | cons o os iho =>
-        intro s hos hs
-        simp only [List.foldl_cons]
-        apply iho _ (fun o' ho' => hos o' (List.mem_cons_of_mem _ ho'))
-        apply traverse_reach g new qi (fun y => ∃ o ∈ old, Reach g o y)
-          (fun a b ⟨o, ho, hr⟩ he => ⟨o, ho, reach_trans hr (reach_of_edge he)⟩)
-          _ o [] s ⟨o, hos o (List.mem_cons.mpr (Or.inl rfl)), reach_refl g o⟩ (by simp) hs
-    exact hloop old ([], []) (fun _ h => h) (by simp) y hy
 
 /-- every node the loop of `__findReachableSubset` keeps can reach one of the start nodes -/
 theorem reachLoop_reach {g : Graph} (hwf : g.WF) (valid : List Node) (P : Node → Prop)
